@@ -94,11 +94,15 @@ def _do_load(op, profile=False):
         # the opposite setting: what "before the call" means is then the value the manager installed
         rv.errors.RAISE_CONTROLLER_VALUE_ERRORS = not bool(cm)
         with rv.errors.override_raise_controller_value_errors(bool(cm)):
+            if op.get("assign_inside") is not None:
+                # inside the block the application assigns the setting directly; what the load has to
+                # restore is the value in force when the load was called
+                rv.errors.RAISE_CONTROLLER_VALUE_ERRORS = bool(op["assign_inside"])
             inner_before = rv.errors.RAISE_CONTROLLER_VALUE_ERRORS
             res = _do_load_inner(op, ctx, data, how, name, inner_before, set_flag=False)
         outer_after = rv.errors.RAISE_CONTROLLER_VALUE_ERRORS
         ctx_, _, after, exit_, obj = res
-        if outer_after is not (not bool(cm)):
+        if outer_after is not (not bool(cm)) and op.get("assign_inside") is None:
             after = ("outer:%r" % outer_after)  # reported as a flag_restored violation by the caller
         return ctx_, inner_before, after, exit_, obj
     finally:
@@ -413,6 +417,8 @@ def plan(tier, seed):
         units.append({"kind": "sweep", "file": spec, "how": "path", "flag0": False, "debug_log": True, "calls_only": True})
         units.append({"kind": "sweep", "file": spec, "how": "file", "flag0": True, "ctxmgr": True, "calls_only": True})
         units.append({"kind": "sweep", "file": spec, "how": "path", "flag0": True, "ctxmgr": False, "calls_only": True})
+        units.append({"kind": "sweep", "file": spec, "how": "file", "flag0": True, "ctxmgr": True, "assign_inside": False, "calls_only": True, "sample": 300})
+        units.append({"kind": "sweep", "file": spec, "how": "path", "flag0": True, "ctxmgr": False, "assign_inside": True, "calls_only": True, "sample": 300})
     # loads that happen inside Container.clone() / Module.clone(): faults on the scratch buffer
     clone_files = [s_ for s_ in by_size if s_["name"].endswith(".sunvox")] + [s_ for s_ in by_size if "metamodule" in s_["name"] or "sampler" in s_["name"]]
     clone_synths = by_size[:6] + [s_ for s_ in by_size if "metamodule" in s_["name"] or "sampler" in s_["name"]]
@@ -425,6 +431,10 @@ def plan(tier, seed):
         if spec["name"].endswith(".sunsynth"):
             units.append({"kind": "sweep", "file": spec, "how": "clone_module", "flag0": True})
             units.append({"kind": "sweep", "file": spec, "how": "clone_module", "flag0": False})
+    # size swarm: a multi-megabyte file (by path, by file object, and cloned)
+    huge = {"src": "gen", "seed": 4242, "layout": 2, "huge": True, "n": 3}
+    for how, fl in (("path", True), ("str", False), ("file", True)):
+        units.append({"kind": "sweep", "file": huge, "how": how, "flag0": fl, "calls_only": True, "sample": 40 if tier == "quick" else 400})
     nflip = 40 if tier == "quick" else 400
     for spec in fx:
         units.append({"kind": "flips", "file": spec, "count": nflip, "seed": seed})
@@ -457,7 +467,8 @@ def generate(seed, i, tier="quick"):
             elif r.random() < 0.5:
                 faults = seeded_flips(spec, how, r.randrange(1 << 30), 1)[0]
             ops.append({"k": "load", "file": spec, "how": how, "flag0": r.random() < 0.5, "faults": faults, "strict_read": r.random() < 0.15,
-                        "debug_log": r.random() < 0.15, "ctxmgr": r.choice([None, None, None, None, True, False])})
+                        "debug_log": r.random() < 0.15, "ctxmgr": r.choice([None, None, None, None, True, False]),
+                        "assign_inside": r.choice([None, None, True, False])})
         elif x < 0.9:
             ops.append({"k": "probe", "sel": r.randrange(6)})
         else:
@@ -493,7 +504,7 @@ def run_unit(unit):
             case = {
                 "property": PROPERTY,
                 "world": "loader",
-                "ops": [{"k": "load", "file": spec, "how": how, "flag0": flag0, "faults": p, "strict_read": bool(unit.get("strict_read")), "debug_log": bool(unit.get("debug_log")), "ctxmgr": unit.get("ctxmgr")}, {"k": "probe", "sel": 0}],
+                "ops": [{"k": "load", "file": spec, "how": how, "flag0": flag0, "faults": p, "strict_read": bool(unit.get("strict_read")), "debug_log": bool(unit.get("debug_log")), "ctxmgr": unit.get("ctxmgr"), "assign_inside": unit.get("assign_inside")}, {"k": "probe", "sel": 0}],
             }
             acc.run(execute, case)
         acc.probes["sweep_complete:%s" % how] += 1
